@@ -3298,11 +3298,12 @@ func (s *TreeShapeListener) EnterEnum(ctx *parser.EnumContext) {
 
 // ExitEnum is called when production enum is exited.
 func (s *TreeShapeListener) ExitEnum(ctx *parser.EnumContext) {
+	// EnterEnum always pushes the enum onto the scope stack, so always pop it.
+	defer s.popScope()
 	if s.currentApp().Types[s.currentTypePath.Get()] == nil {
 		return
 	}
 	s.applyAnnotations(ctx.AllAnnotation())
-	s.popScope()
 }
 
 // EnterAlias is called when production alias is entered.
@@ -3336,9 +3337,8 @@ func (s *TreeShapeListener) ExitAlias(ctx *parser.AliasContext) {
 	s.currentTypePath.Pop()
 	s.fieldname = []string{}
 	s.typemap = map[string]*sysl.Type{}
-	if ctx.Annotation(0) != nil {
-		s.popScope()
-	}
+	// EnterAlias always pushes the alias onto the scope stack, so always pop it.
+	s.popScope()
 }
 
 // EnterApp_decl is called when production app_decl is entered.
